@@ -27,7 +27,7 @@ KEY_BAD_ORDER = 'sort_hr_rules:order-not-dependency-respecting:item-defined-by-a
 KEY_CYCLE = 'check_hierarchy:reference-manual-example-ruleset-rejected-as-cyclic:1-3-2-3'
 KEY_DSPRIO = 'check_hierarchy:input-mode-dataset_priority:raw-NotImplementedError'
 KEY_SIGN = 'hierarchical-rule:right-side-starts-with-a-sign:AttributeError-HRUnOp-has-no-attribute-value'
-KEY_ALIAS = 'check_datapoint:signature-alias:not-resolved-inside-parentheses-or-in-list:BinderException'
+KEY_ALIAS = 'check_datapoint:signature-alias:not-resolved-inside-parentheses:BinderException'
 KEY_BOOLNAME = 'check:boolean-operand-measure-not-named-bool_var:structure-keeps-the-operand-name'
 KEY_ELTEXT = 'ruleset:errorlevel-missing-on-some-rules:numeric-errorlevel-returned-as-text'
 
@@ -236,12 +236,62 @@ def generic_key(c, v, d, e):
     return '%s:%s' % (base, v.split(':', 1)[1])
 
 
+def replay(ck):
+    """`./check C07 --replay replays/<file>.json`: re-run the stored script and data on the real engine and on the
+    model; a (still) disagreeing case is reported under its stored key."""
+    rp = json.load(open(ck.replay_path))
+    r = rp.get('replay', rp) or {}
+    if 'script' not in r or 'structures' not in r:
+        print('replay: %s names a broken obligation or a bare probe, not a (script, data) case' % ck.replay_path)
+        if 'script' in r:
+            import eng
+            from vtlengine import run  # noqa: F401
+            print('script :', r['script'])
+        return
+    env = {}
+    for d in r['structures']['datasets']:
+        ids = [(c['name'], c['type']) for c in d['DataStructure'] if c['role'] == 'Identifier']
+        meas = [(c['name'], c['type']) for c in d['DataStructure'] if c['role'] != 'Identifier']
+        rows = []
+        for row in r['data'].get(d['name'], []):
+            vals = []
+            for (n, t), v in zip(ids + meas, row):
+                if v is None:
+                    vals.append(None)
+                elif t == 'Integer':
+                    vals.append(int(v))
+                elif t == 'Number':
+                    vals.append(Fraction(v))
+                elif t == 'Boolean':
+                    vals.append(v == 'True')
+                else:
+                    vals.append(v)
+            rows.append(tuple(vals))
+        env[d['name']] = {'ids': ids, 'meas': meas, 'rows': rows}
+    case = {'kind': 'replay', 'env': env, 'vtl': r['script'], 'ops': [], 'flat': False, 'depth': 0, 'meta': r.get('meta') or {'op': 'replay'}}
+    ans = ck.driver('Valid', [r['model_request']])[0]
+    out = R.run_engine([case], jobs=1)[0]
+    e, el_text = normalise_errorlevel(out)
+    v, d = R.compare(case, ans, e)
+    print('script :', r['script'])
+    print('model  :', ans[:500])
+    print('engine :', str(out)[:700])
+    print('verdict:', v, str(d)[:300], '(numeric errorlevel returned as text)' if el_text else '')
+    ck.count((r['script'], 'replay'), nontrivial=True)
+    ck.sample({'replayed': ck.replay_path, 'verdict': v})
+    ck.cov['rule'] = 'replay of one stored case'
+    if v.startswith('DISAGREE') or el_text:
+        ck.violation(rp.get('key') or 'replay:' + v, dict(r, verdict=v, detail=str(d)[:600]), '%s: %s' % (v, r['script'][-200:]))
+
+
 def main(ck):
+    if ck.replay_path:
+        return replay(ck)
     pr = ck.proof('C07')
     q = ck.quick()
     g = GV.VGen(ck.rng)
-    n = int(os.environ.get('VERIF_N', 0)) or (150 if q else 2400)
-    kinds = ['check', 'dp', 'dp', 'ch', 'ch', 'hier', 'hier', 'hier']
+    n = int(os.environ.get("VERIF_N", 0)) or (96 if q else 1600)
+    kinds = (os.environ.get('VERIF_KINDS') or 'check,check,dp,dp,ch,ch,hier,hier,hier').split(',')
     cases = [g.case(kinds[i % len(kinds)]) for i in range(n)]
     rmc = rm_cases()
     all_cases = rmc + cases
